@@ -213,9 +213,14 @@ def run_hist(key, op, shape, ls0, first, tie, mk):
         pass
     # the earlier call also sees a game with the same number of players as the later one (caches keyed by counts)
     g1b = [[m1.rating(26.0 + i + j, 5.0 + i) for j in range(n)] for i, n in enumerate(shape)]
+    # one outcome list object handed to an earlier call and to the later one (a placements list re-used between rounds):
+    # a call that re-orders or rewrites the list it was given changes what the later call sees
+    shared = _ranks_for(shape, tie) if op == 'rate' else None
     if fop == 'rate':
         m1.rate(g1, ranks=[1, 0, 1], tau=ft, limit_sigma=fl)
         m1.rate(g1b, ranks=list(range(len(shape))), tau=ft, limit_sigma=fl)
+        if shared is not None:
+            m1.rate([[m1.rating(24.0 + 2 * i + j, 4.0 + i) for j in range(n)] for i, n in enumerate(shape)], ranks=shared, tau=ft, limit_sigma=fl)
         # the score encoding has its own conversion path: exercise it in the earlier calls too
         m1.rate(_first_game(m1), scores=[3, 7, 3], tau=ft, limit_sigma=fl)
         m1.rate([[m1.rating(26.0 + i + j, 5.0 + i) for j in range(n)] for i, n in enumerate(shape)],
@@ -239,7 +244,7 @@ def run_hist(key, op, shape, ls0, first, tie, mk):
         for old, new in zip(held, second):
             old[:] = new
         second = held
-    a = _call(m, op, second, _ranks_for(shape, tie) if op == 'rate' else None)
+    a = _call(m, op, second, (shared if (shared is not None and fop == 'rate') else _ranks_for(shape, tie)) if op == 'rate' else None)
     a2 = None
     if op == 'rate':
         out = m.rate(_mk_teams(m, shape, mk), scores=[-r for r in _ranks_for(shape, tie)])
